@@ -34,7 +34,8 @@ def history(ctx, case):
             tag += 1
             sent = what.endswith('sent')
             name = 'get_registry' if what.startswith('greg') else 'sync'
-            ret = gdbworld.fire_message(w, ADDRS[a], thread, name, sent, tag)
+            # the process is a nested compositor: the first address is a connection it holds as a client, the second one it serves
+            ret = gdbworld.fire_message(w, ADDRS[a], thread, name, sent, tag, side='client' if a == 0 else 'server')
             ctx.check('stop() tells GDB to keep running (no breakpoint matcher set)', ret is False)
             if not cur:
                 role = (not sent) if name == 'get_registry' else None
